@@ -2,11 +2,11 @@
 """seeded_save.py <ID> <property> '<needs>' '<detected by>' : keep a confirmed seeded change under /verif/seeded/<ID>/"""
 import json, os, shutil, sys, glob
 sid, prop, needs, detected = sys.argv[1:5]
-wt = "/tmp/wt-%s" % sid
+wt = sys.argv[5] if len(sys.argv) > 5 else "/tmp/wt-%s" % sid
 d = "/verif/seeded/%s" % sid
 os.makedirs(d, exist_ok=True)
 shutil.copy(os.path.join(wt, "patch.diff"), os.path.join(d, "patch.diff"))
-demos = glob.glob(os.path.join(wt, "tarpc/tests/seeded_*.rs")) + glob.glob(os.path.join(wt, "plugins/tests/seeded_*.rs"))
+demos = glob.glob(os.path.join(wt, "tarpc/tests/seeded*_*.rs")) + glob.glob(os.path.join(wt, "plugins/tests/seeded*_*.rs"))
 for f in demos:
     shutil.copy(f, d)
 confirm = open("/tmp/confirm-%s.txt" % sid).read() if os.path.exists("/tmp/confirm-%s.txt" % sid) else ""
